@@ -509,6 +509,22 @@ def c15(tier, seed):
         {'script': 'function f() {\n    echo in-f\n}\nset -e\nf\n./st b 3\necho c\n', 'files': F, 'expect_stdout': 'in-f\nb\n', 'expect_rc': 3, 'area': 'set-e:after-function-call'},
         {'script': 'function f() {\n    ./st in-f 4\n    echo not-reached\n}\nset -e\nf\necho c\n', 'files': F, 'expect_stdout': 'in-f\n', 'expect_rc': 4, 'area': 'set-e:inside-function'},
         {'script': 'set -e\n./st a 0\n./st b 0\n', 'files': F, 'expect_stdout': 'a\nb\n', 'expect_rc': 0, 'area': 'set-e'},
+        # set -e at every kind of position: the failing command ends the script wherever it stands
+        {'script': 'set -e\nif true\n    ./st a 4\n    echo no1\nfi\necho no2\n', 'files': F, 'expect_stdout': 'a\n', 'expect_rc': 4, 'area': 'set-e:inside-if'},
+        {'script': 'set -e\nif false\n    echo no\nelse\n    ./st a 4\n    echo no1\nfi\necho no2\n', 'files': F, 'expect_stdout': 'a\n', 'expect_rc': 4, 'area': 'set-e:inside-else'},
+        {'script': 'set -e\nfor x in 1 2\n    ./st $x 5\n    echo no1\ndone\necho no2\n', 'files': F, 'expect_stdout': '1\n', 'expect_rc': 5, 'area': 'set-e:inside-for'},
+        {'script': 'set -e\nwhile true\n    ./st a 8\n    echo no1\ndone\necho no2\n', 'files': F, 'expect_stdout': 'a\n', 'expect_rc': 8, 'area': 'set-e:inside-while', 'timeout': 8},
+        {'script': 'set -e\nif true\n    if true\n        ./st a 9\n        echo no1\n    fi\n    echo no2\nfi\necho no3\n', 'files': F, 'expect_stdout': 'a\n', 'expect_rc': 9, 'area': 'set-e:nested'},
+        {'script': 'set -e\nfor x in 1 2\n    if true\n        ./st $x 3\n    fi\n    echo no1\ndone\necho no2\n', 'files': F, 'expect_stdout': '1\n', 'expect_rc': 3, 'area': 'set-e:nested'},
+        # ... and a test that fails, a loop that ends, a branch not taken or a comment line are not failing commands
+        {'script': 'set -e\nif false\n    echo no\nfi\necho r1\nx=0\nwhile [ $x -lt 2 ]\n    x=$(expr $x + 1)\ndone\n# a comment\necho r2\n./st z 6\necho no\n', 'files': F,
+         'expect_stdout': 'r1\nr2\nz\n', 'expect_rc': 6, 'area': 'set-e:tests-are-not-failures'},
+        {'script': 'set -e\nfor x in a b\n    if [ $x = a ]\n        continue\n    fi\n    echo x=$x\ndone\nfor y in a b\n    if [ $y = a ]\n        break\n    fi\ndone\necho r3\n', 'files': F,
+         'expect_stdout': 'x=b\nr3\n', 'expect_rc': 0, 'area': 'set-e:tests-are-not-failures'},
+        {'script': 'function f() {\n    x=0\n    while [ $x -lt 1 ]\n        x=1\n    done\n    # comment\n    echo in-f\n}\nset -e\nf\necho after\n', 'files': F,
+         'expect_stdout': 'in-f\nafter\n', 'expect_rc': 0, 'area': 'set-e:tests-are-not-failures:in-function'},
+        # without set -e a failing command inside a construct ends nothing
+        {'script': 'if true\n    ./st a 4\n    echo y1\nfi\nfor x in 1\n    ./st b 5\n    echo y2\ndone\necho y3\n', 'files': F, 'expect_stdout': 'a\ny1\nb\ny2\ny3\n', 'expect_rc': 0, 'area': 'no-set-e:inside-constructs'},
         {'script': "./pargs 'x' $1 \"$2\" `echo y` ${1}\n", 'args': ['a', 'b'], 'files': F, 'expect_stdout': _argv(['x', 'a', 'b', 'y', 'a']), 'area': 'script:arguments:after-quoted-words'},
         {'script': 'source lib.sh\n$HOME/pargs "$V"\nlf x\nal\nbasename $PWD\n',
          'files': dict(F, **{'lib.sh': 'V=fromlib\nfunction lf() {\n    echo "lf:$1"\n}\nalias al="echo aliased"\nmkdir -p sub\ncd sub\n'}),
